@@ -25,27 +25,30 @@ def run(ctx):
     where = "%s:%d" % (as_reader.file, as_reader.line)
 
     # ---- the flag: the bool field of Request that as_reader's behaviour depends on
-    bools = [x["name"] for x in facts.adt(REQ)["variants"][0]["fields"] if x["ty"] == "bool"]
+    bools = shared.find_slot_paths(facts, REQ, r"^bool$")        # (at any depth of private sub-structs)
     flag = None
+    flag_path = None
     behaviour = {}
     for b in bools:
         outs = {}
         for val in (True, False):
-            f, ps = RM.run(as_reader, extra={RM.key(RM.self_base(as_reader), (b,)): ("const", val, str(val).lower(), None)})
+            f, ps = RM.run(as_reader, extra={RM.key(RM.self_base(as_reader), b): ("const", val, str(val).lower(), None)})
             outs[val] = (f, ps)
         np_t = [len(RM.prints(p)) for p in outs[True][1]]
         np_f = [len(RM.prints(p)) for p in outs[False][1]]
         if np_t != np_f:
-            flag = b
+            flag_path = b
+            flag = b[-1]
             behaviour = outs
     ctx.ob("C18.2", "%s|has-continue-flag" % as_reader.id, "as_reader's sending of the interim response depends on one boolean field of the Request", flag is not None, where)
     if flag is None:
         return {}
-    FLAGKEY = RM.key(RM.self_base(as_reader), (flag,))
+    FLAGKEY = RM.key(RM.self_base(as_reader), flag_path)
+    FLAG_OWNER, _ = shared.owner_of_path(facts, REQ, flag_path)
 
     # ---- C18.1 who writes the flag; its initial value
     n = 0
-    for f, bb, kind, x in facts.field_writes(REQ, flag):
+    for f, bb, kind, x in facts.field_writes(FLAG_OWNER, flag):
         n += 1
         ctx.touch(f)
         if kind == "construct":
@@ -66,11 +69,11 @@ def run(ctx):
         rows += 1
         for r in FM.rows:
             if r["end"] == "return" and r["kind"] == "ok" and FM.compatible(r, A):
-                v = absint.const_of(r["request"].get(flag, ("unknown",)))
+                v = absint.const_of(absint.deep(r["path"].state, FRM.term_at(("agg", REQ, "Request", r["request"]), flag_path)))
                 if v is not W["continue"]:
                     bad.append((A, v))
     ctx.ob("C18.1", "flag-value|%s" % FM.nr0.id, "the flag is true exactly when an `Expect: 100-continue` header was recognised", rows > 0 and not bad, "%s:%d" % (FM.nr0.file, FM.nr0.line), None if not bad else str(bad[:3]))
-    for f, bb, kind in facts.field_reads(REQ, flag):
+    for f, bb, kind in facts.field_reads(FLAG_OWNER, flag):
         ctx.ob("C18.3", "flag-read|%s" % f.id, "only the request module consults the flag, and only on the way to the body (answering without asking for the body sends no interim response)",
                f.file == RM.file and f.id in [d for dep, d in RM.fn(as_reader).inlined], f.loc(bb))
 
@@ -90,7 +93,7 @@ def run(ctx):
             bad.append("status %s" % sorted(RM.status_consts(p, e)))
         if not RM.arg_mentions(p, e, 1, RR.WRITER):
             bad.append("not written to this request's response writer")
-        nb = e[3][4] if len(e[3]) > 4 else None
+        nb = shared.print_call_args(facts, p.state, e).get("suppress")
         if nb is None or absint.const_of(nb) is not True:
             bad.append("printed with a body")
         fl = [j for j, ev in enumerate(p.events) if j > i and ev[1] == "call" and ((ev[6] or "") == "std::io::Write::flush" or re.search(r"Write>::flush$", ev[2])) and RM.arg_mentions(p, ev, 0, RR.WRITER)]
@@ -131,7 +134,7 @@ def run(ctx):
         g = RM.methods.get(name)
         if g is None:
             continue
-        extra = {RM.key(RM.self_base(g), (flag,)): ("const", True, "true", None)}
+        extra = {RM.key(RM.self_base(g), flag_path): ("const", True, "true", None)}
         f, ps = RM.run(g, extra=extra)
         st = set()
         for p in ps:
